@@ -11,6 +11,17 @@ comes from the typed three-valued evaluator working on the expression tree over 
 mirror of the data; results are compared as set / bag / sequence-up-to-ties per documented form.
 Any exception from Pony = "refused" (allowed), counted per production.
 
+Hand-shaped forms beside the grammar (joins, DISTINCT rules, grouping; extra_queries) and two families on
+the separate 'slots' schema (Slot with the composite key (room, hour), one-to-many Slot.bookings):
+  composite-pk   every non-empty selection of key attributes x non-key attributes as plain / tuple projection
+                 (also filtered, ordered - multiplicity not judged under order_by - and under Query.count()),
+                 entity results through all three front ends, two-variable joins: set or bag by the documented
+                 rule (DISTINCT unless the row holds the FULL primary key of every iterated entity);
+  JOIN hint      sum/min/max/avg/count over s.bookings.qty|w|note and count(s.bookings), plain and under JOIN(...)
+                 (around the aggregate and around the comparison), in projection, filters (== k, > k, not,
+                 is None) and order_by, over slots with an EMPTY collection, an all-None one, a zero sum:
+                 both forms against the reference and against each other.
+
 Attribution: a failing query is reduced to its minimal failing sub-expression by re-running the
 sub-expressions as projections select((p.id, sub) for p in Person) row by row; the signature is the
 operator skeleton of that minimal sub-expression plus the value classes of its leaves on the
@@ -292,9 +303,16 @@ def check_expr(sub, st, E, deep, hashes):
 _EXPRS = {}
 def work(task):
     depth, idxs = task
-    st = state()
     sub = core.Sub()
     hashes = set()
+    if depth == 'slots':
+        st = state_slots(); st.setdefault('n', 0)
+        forms = _EXPRS['slots']
+        for i in idxs: check_slot_form(sub, st, forms[i], hashes)
+        d = sub.dump()
+        d['hashes'] = sorted(hashes)
+        return d
+    st = state()
     exprs = _EXPRS[depth]
     for i in idxs:
         E = exprs[i]
@@ -341,8 +359,172 @@ def extra_queries():
                                   [call('gt', COND, call('sum', INT, attr(attr(d, 'persons'), 'n')), const(0))]), ('str', 'gen')))
     return out
 
+# ---- 'slots' schema: composite primary key, JOIN hint ---------------------------------------------------
+S = var('s', 'Slot')
+def state_slots():
+    key = ('slots', os.getpid())
+    st = _STATE.get(key)
+    if st is None:
+        db, data = qx.get_db('slots')
+        st = _STATE[key] = dict(db=db, data=data)
+    return st
+
+def composite_pk_forms():
+    """[(position, shape, Query, frontends, opts)]"""
+    one = [('s', 'Slot')]
+    col = {n: attr(S, n) for n in ('room', 'hour', 'label', 'cap')}
+    Q = lambda *a, **kw: Query(*a, dataset='slots', **kw)
+    cond = call('lt', COND, col['hour'], const(11))
+    out = []
+    keysets = [(), ('room',), ('hour',), ('room', 'hour'), ('hour', 'room')]
+    for ks in keysets:
+        for ns in [(), ('label',), ('cap',), ('label', 'cap')]:
+            names = ks + ns
+            if not names: continue
+            orders = [names] + ([ns + ks] if ks == ('room',) and ns else [])      # the place in the tuple must not matter
+            shape = ('full key' if len(ks) == 2 else 'part of the key' if ks else 'no key attribute') + (' + non-key' if ns and ks else '')
+            for nm in orders:
+                cols = tuple(col[n] for n in nm)
+                out.append(('tuple projection', shape, Q(one, cols), ('str', 'gen'), {}))
+                out.append(('tuple projection, filtered', shape, Q(one, cols, [cond]), ('str', 'gen'), {}))
+                out.append(('tuple projection, ordered', shape, Q(one, cols, order=[(cols[0], False)]), ('str',), dict(ordered=(0, False))))
+                out.append(('tuple projection, ordered', shape, Q(one, cols, order=[(cols[-1], True)], order_style='str'), ('str', 'gen'), dict(ordered=(len(cols) - 1, True))))
+                if len(cols) == 1:
+                    out.append(('plain projection', shape, Q(one, cols[0]), ('str', 'gen'), {}))
+                    out.append(('plain projection, filtered', shape, Q(one, cols[0], [cond]), ('str', 'gen'), {}))
+                    sh = shape if nm != ('cap',) else 'nullable non-key attribute'
+                    out.append(('count()', sh, Q(one, cols[0], post='count'), ('str', 'gen'), {}))
+                    out.append(('count()', sh, Q(one, cols[0], [cond], post='count'), ('str', 'gen'), {}))
+    out.append(('entity', 'entity', Q(one, S), ('str', 'gen'), {}))
+    out.append(('entity', 'entity', Q(one, S, [cond]), ('str', 'gen', 'lam'), {}))
+    out.append(('count()', 'entity', Q(one, S, post='count'), ('str', 'gen'), {}))
+    out.append(('count()', 'entity', Q(one, S, [cond], post='count'), ('str', 'gen', 'lam'), {}))
+    b = var('b', 'Booking')
+    two = [('s', 'Slot'), ('b', attr(S, 'bookings'))]
+    for shape, cols in (('part of the key + full key of the joined entity', (col['room'], attr(b, 'id'))),
+                        ('part of the key + non-key of the joined entity', (col['room'], attr(b, 'w'))),
+                        ('full key + full key of the joined entity', (col['room'], col['hour'], attr(b, 'id'))),
+                        ('full key + non-key of the joined entity', (col['room'], col['hour'], attr(b, 'w'))),
+                        ('joined entity + part of the key', (b, col['hour'])),
+                        ('entity + non-key of the joined entity', (S, attr(b, 'w')))):
+        out.append(('join', shape, Q(two, cols), ('str', 'gen'), {}))
+    bk = [('b', 'Booking')]
+    bslot = attr(b, 'slot')
+    for shape, proj in (('part of the referenced key', attr(bslot, 'room')),
+                        ('own key + part of the referenced key', (attr(b, 'id'), attr(bslot, 'room'))),
+                        ('referenced key in full', (attr(bslot, 'room'), attr(bslot, 'hour'))),
+                        ('referenced entity', bslot),
+                        ('own key + referenced entity', (attr(b, 'id'), bslot))):
+        out.append(('reference', shape, Q(bk, proj), ('str', 'gen'), {}))
+    return out
+
+def join_hint_forms():
+    """[(position, aggregate name, plain Query, hinted Query, frontends)]"""
+    one = [('s', 'Slot')]
+    Q = lambda *a, **kw: Query(*a, dataset='slots', **kw)
+    room, hour, B = attr(S, 'room'), attr(S, 'hour'), attr(S, 'bookings')
+    aggs = []
+    for c in ('qty', 'w'):
+        for a in ('sum', 'min', 'max', 'avg', 'count'):
+            aggs.append(('%s(int%s)' % (a, ' nullable' if c == 'qty' else ''), call(a, FLOAT if a == 'avg' else INT, attr(B, c)), const(0), const(1)))
+    aggs.append(('count(entity)', call('count', INT, B), const(0), const(1)))
+    for a in ('min', 'max', 'count'):
+        aggs.append(('%s(str nullable)' % a, call(a, INT if a == 'count' else STR, attr(B, 'note')), const(0) if a == 'count' else const('y'), const(1) if a == 'count' else const('a')))
+    ident = lambda x: x
+    hint = lambda x: call('join_hint', x.t, x)
+    out = []
+    for name, A, k0, k1 in aggs:
+        def forms(J, inner):
+            f = [('projection', Q(one, (room, hour, J(A))), ('str', 'gen')),
+                 ('filter == k', Q(one, S, [J(call('eq', COND, A, k0))] if inner else [call('eq', COND, J(A), k0)]), ('str', 'gen', 'lam')),
+                 ('filter > k', Q(one, S, [J(call('gt', COND, A, k1))] if inner else [call('gt', COND, J(A), k1)]), ('str', 'gen', 'lam')),
+                 ('filter not', Q(one, S, [J(call('not', COND, A))] if inner else [call('not', COND, J(A))]), ('str', 'gen', 'lam')),
+                 ('filter is None', Q(one, S, [J(call('is_none', COND, A))] if inner else [call('is_none', COND, J(A))]), ('str', 'gen', 'lam'))]
+            if not inner:
+                f += [('order_by', Q(one, S, order=[(J(A), False)]), ('str', 'gen')),
+                      ('order_by', Q(one, S, order=[(J(A), True)], order_style='str'), ('str',))]
+            return f
+        plain = forms(ident, False)
+        for (pos, qp, fes), (_, qh, _) in zip(plain, forms(hint, False)): out.append((pos, name, qp, qh, fes))
+        for (pos, qp, fes), (_, qh, _) in zip(plain[1:], forms(hint, True)[1:]): out.append((pos + ' (hint around the test)', name, None, qh, fes))
+    return out
+
+def _answer(sub, st, q, fe, what, hashes):
+    """-> (got rows | None when refused, Expected | None when undecided)"""
+    sub.count('queries')
+    try: got = run_query(st, q, fe)
+    except Exception as e:
+        sub.count('refused'); sub.count('refusals:form ' + what); return None, None
+    sub.count('answered'); sub.count('ok:form ' + what)
+    exp = q.expected(st['data'])
+    if exp.undecided:
+        sub.count('answered_but_reference_undecided'); return got, None
+    if exp.rows: hashes.add(zlib.crc32((fe + q.source(fe)).encode()) & 0xffffffff | (len(q.source(fe)) << 32))
+    sub.count('row_comparisons', len(exp.rows))
+    return got, exp
+
+def check_slot_form(sub, st, form, hashes):
+    if form[0] == 'pk':
+        _, pos, shape, q, fes, opts = form
+        what = 'composite-pk ' + pos
+        for fe in fes:
+            got, exp = _answer(sub, st, q, fe, what, hashes)
+            if exp is None: continue
+            mm = compare(exp, got)
+            if opts.get('ordered'):
+                # order_by() drops the automatic DISTINCT (deliberate upstream, recorded under C24): multiplicity is
+                # not judged here, the values and the sequence are
+                n = len(mm); mm = [m for m in mm if m.kind != 'duplicate']
+                if n != len(mm): sub.count('ordered_duplicates_not_judged')
+                i, desc = opts['ordered']
+                keys = [g[i] for g in got if g[i] is not None]
+                if not mm and any((a < b) if desc else (a > b) for a, b in zip(keys, keys[1:])): mm = [qx.Mismatch('sequence', None, tuple(keys))]
+            if not mm: sub.count('agreed'); continue
+            sub.count('disagreed')
+            kinds = '+'.join(sorted(set(m.kind for m in mm)))
+            sub.violation('form %s: %s: %s' % (what, shape, kinds),
+                          dict(query=q.to_json(), frontend=fe, position='form', source=q.source(fe), mismatch=repr(mm[0])), '%s -> %r' % (q.source(fe), mm[0]))
+        return
+    _, pos, name, qp, qh, fes = form
+    what = 'JOIN hint ' + pos
+    for fe in fes:
+        res = {}
+        for label, q in (('plain', qp), ('hinted', qh)):
+            if q is None: continue
+            got, exp = _answer(sub, st, q, fe, what, hashes)
+            res[label] = got
+            if exp is None: continue
+            mm = compare(exp, got, q.order)
+            if not mm: sub.count('agreed'); continue
+            sub.count('disagreed')
+            kinds = '+'.join(sorted(set(m.kind for m in mm)))
+            sub.violation('form %s: %s %s: %s' % (what, label, name, kinds),
+                          dict(query=q.to_json(), frontend=fe, position='form', source=q.source(fe), mismatch=repr(mm[0])), '%s -> %r' % (q.source(fe), mm[0]))
+        if res.get('plain') is not None and res.get('hinted') is not None:
+            sub.count('hint_differentials')
+            a, b = sorted(map(repr, res['plain'])), sorted(map(repr, res['hinted']))
+            if a != b:
+                sub.violation('form %s: %s: the hint changes the answer' % (what, name),
+                              dict(query=qh.to_json(), plain=qp.to_json(), frontend=fe, position='hint-differential', source=qh.source(fe)),
+                              '%s -> %s but %s -> %s' % (qp.source(fe), a[:6], qh.source(fe), b[:6]))
+
+def slot_forms():
+    return [('pk',) + f for f in composite_pk_forms()] + [('hint',) + f for f in join_hint_forms()]
+
+def m2m_hint_queries():
+    """JOIN hint over the many-to-many p.tags.w of the main data set (persons without tags)"""
+    out = []
+    W = attr(attr(P, 'tags'), 'w')
+    hint = lambda x: call('join_hint', x.t, x)
+    for a in ('sum', 'min', 'max', 'avg', 'count'):
+        A = hint(call(a, FLOAT if a == 'avg' else INT, W))
+        out.append(('JOIN hint m2m projection', Query([('p', 'Person')], (PID, A)), ('str', 'gen')))
+        out.append(('JOIN hint m2m filter == 0', Query([('p', 'Person')], P, [call('eq', COND, A, const(0))]), ('str', 'gen')))
+        out.append(('JOIN hint m2m filter not', Query([('p', 'Person')], P, [call('not', COND, A)]), ('str', 'lam')))
+    return out
+
 def check_extra(sub, st, hashes):
-    for name, q, fes in extra_queries():
+    for name, q, fes in extra_queries() + m2m_hint_queries():
         exp = q.expected(st['data'])
         for fe in fes:
             sub.count('queries')
@@ -376,6 +558,9 @@ def run(ctx):
     L = qx.grammar_leaves(P)
     _EXPRS[0] = [x for t in (INT, FLOAT, DEC, STR, BOOL, DATE, 'Dept') for x in L[t]]
     tasks += chunks(0, len(_EXPRS[0]), 8)
+    _EXPRS['slots'] = slot_forms()
+    tasks += chunks('slots', len(_EXPRS['slots']), 24)
+    ctx.cov['slot_forms'] = len(_EXPRS['slots'])
     hashes = set()
     results = ctx.pmap(work, ctx.shuffled(tasks))
     for d in results:
@@ -394,6 +579,7 @@ def run(ctx):
     ctx.cov['productions_never_answered'] = never
     ctx.guard('grammar productions answered at least once (of %d)' % len(prods), len(prods) - len(never), len(prods))
     ctx.guard('row comparisons', c.get('row_comparisons', 0), 100000)
+    ctx.guard('plain / JOIN-hinted pairs both answered and compared with each other', c.get('hint_differentials', 0), 200)
     for k in [k for k in list(c) if k.startswith(('ok:', 'refusals:', 'unplaced:'))]: del c[k]
     ctx.assume('SQLite 3.40 in-memory database is the executing engine; data reach it through Pony itself (C06/C07 cover storage)')
     ctx.assume('reference evaluator conventions of DESIGN section 2 QX; rows for which Python has no answer (ZeroDivisionError, attribute of None, IndexError, int("ab"), ordering of None, `None not in subquery`) accept either outcome')
@@ -405,8 +591,13 @@ def run(ctx):
                      'result is decided and non-empty' % ('' if ctx.quick else '; depth 2 pruned operand lists'))
 
 def replay(ctx, case):
-    st = state()
     q = Query.from_json(case['query'])
+    st = state_slots() if q.dataset == 'slots' else state()
+    if case.get('position') == 'hint-differential':
+        qp, fe = Query.from_json(case['plain']), case['frontend']
+        a, b = sorted(map(repr, qp.run(st['db'], fe))), sorted(map(repr, q.run(st['db'], fe)))
+        print('plain   :', qp.source(fe), '->', a[:8]); print('hinted  :', q.source(fe), '->', b[:8])
+        return a == b
     fe = case['frontend']
     print('query   :', q.source(fe))
     try: got = q.run(st['db'], fe)
